@@ -432,8 +432,11 @@ class Evidence:
         d = {'property_id': self.pid, 'tier': self.tier, 'seed': self.seed, 'level': self.level,
              'coverage': self.cov, 'assumptions': self.assumptions, 'wall_s': round(time.time() - self.t0, 2),
              'violations': self.violations, 'known_findings_matched': self.known}
-        os.makedirs(os.path.join(VERIF, 'evidence'), exist_ok=True)
-        p = os.path.join(VERIF, 'evidence', self.pid + '.json')
+        # VERIF_EVIDENCE_DIR: used only by tools/try_mutant.sh so that runs against a deliberately broken tree do not overwrite
+        # the evidence of the real tree
+        edir = os.environ.get('VERIF_EVIDENCE_DIR') or os.path.join(VERIF, 'evidence')
+        os.makedirs(edir, exist_ok=True)
+        p = os.path.join(edir, self.pid + '.json')
         with open(p + '.tmp', 'w') as fh:
             json.dump(d, fh, indent=1, default=str)
         os.replace(p + '.tmp', p)
